@@ -280,6 +280,8 @@ def ob_c(ob):
     res = chrun.run_slices(slices, jobs=4)
     for sl, r in zip(slices, res):
         ob.paths += 1
+        ob.ch_conditions += 1
+        ob.ch_definite += r["verdict"] in ("confirmed", "counterexample")
         ob.sample({"slice": sl.name, "verdict": r["verdict"], "seconds": r["seconds"], "call": r.get("call")})
         if r["verdict"] == "confirmed":
             ob.discharged(sl.name)
